@@ -39,6 +39,7 @@ func main() {
 		runC17(*seed, *count)
 	case "C11":
 		runC11(*seed, *count)
+		runC11pw()
 	case "C02":
 		runC02burst()
 	case "C06":
